@@ -1,6 +1,7 @@
 import PelModel.Cli
 import PelProofs.Cli
 import PelProps.C07
+import PelProofs.Top
 /-
   C10 — Look-ups by platform log id, BMC id, entry id and SRC return exactly the matches.
 -/
@@ -93,5 +94,51 @@ theorem src_exact (env : Env) (o : CliOpts) (needle : Text) (d : Dir) (hn : need
 /-- `isInfix` is "occurs as a contiguous substring" -/
 theorem isInfix_iff (needle hay : Text) : isInfix needle hay = true ↔ ∃ a b, hay = a ++ needle ++ b := by
   exact isInfix_iff_exists needle hay
+
+/-! ### the WHOLE command: `runMain` = `dispatch` followed by the mode it names, on a `World` (model: PelModel/Top.lean) -/
+
+/-- ★ a command line that reaches one of the five look-ups (`--id`, `--bmc-id`, `--plid`, `--src`, `--src-exclude`) WITHOUT any selection
+    option considers hidden and non-serviceable PELs: the selection the look-up function receives is "look-up id stored, nothing else",
+    under which `considerPEL` accepts every severity / action-flag word (`lookups_consider_all` through `main_lookup_flag`), and therefore the
+    WHOLE command — stdout, diagnostics, exit status, world — is the same as with `-E` added, in every world and under every fault plan -/
+theorem command_lookup_ignores_class (fault : Nat → Bool) (env : Env) (a : Args) (w : World)
+    (hs : a.NoSelection) (hl : (dispatch (w.fsView a) a).1.isLookup = true) :
+    (dispatch (w.fsView a) a).2.sel = { lookup := true } ∧
+    (∀ sev af, considerPEL sev af (dispatch (w.fsView a) a).2.sel = true) ∧
+    runMainF fault env { a with every := true } w = runMainF fault env a w := by
+  have hlk : (dispatch (w.fsView a) a).2.sel.lookup = true := (Pel.C07.main_lookup_flag (w.fsView a) a).1.mpr (Or.inl hl)
+  have hsel : (dispatch (w.fsView a) a).2.sel = { lookup := true } := by
+    rw [(Pel.C07.main_lookup_flag (w.fsView a) a).2, hlk, Pel.C07.main_default_config _ a hs]
+  refine ⟨hsel, fun sev af => by rw [hsel]; exact lookups_consider_all sev af, ?_⟩
+  unfold runMainF
+  have hfs : w.fsView { a with every := true } = w.fsView a := rfl
+  simp only [hfs, dispatch_every]
+  refine runAction_lookup_congr fault _ w _ _ _ hl rfl rfl rfl (fun sev af => ?_)
+  simp only [hsel]
+  rw [Pel.C07.every_selects_all sev af _ rfl]
+  exact (lookups_consider_all sev af).symm
+
+/-- the look-up is reached, e.g., by `--plid X` (non-empty) on a `-p` directory with none of `-f -j -i --bmc-id` given -/
+theorem plid_reached (a : Args) (w : World) (p x : Text) (hf : tv a.file = none) (hp : tv a.path = some p) (hd : w.pathIsDir = true)
+    (hj : a.json = false) (hi : tv a.pelID = none) (hb : tv a.bmcID = none) (hx : tv a.plid = some x) :
+    (dispatch (w.fsView a) a).1 = .plidMode p x :=
+  (chain_unique (.plid hf hp ((fsView_isDir_path hp).trans hd) hj hi hb hx)).1
+
+/-! Non-vacuity: `-p /pels --plid 50000001` and `-p /pels --src-exclude /ex.txt` reach a look-up in `wDemo` and carry no selection option. -/
+example : (dispatch (wDemo.fsView { path := some (s "/pels"), plid := some (s "50000001") })
+      { path := some (s "/pels"), plid := some (s "50000001") }).1.isLookup = true ∧
+    ({ path := some (s "/pels"), plid := some (s "50000001") } : Args).NoSelection := ⟨by decide, ⟨rfl, rfl, rfl, rfl, rfl, rfl, rfl⟩⟩
+example : (dispatch (wDemo.fsView { path := some (s "/pels"), srcExclude := some (s "/ex.txt"), deleteAll := true })
+      { path := some (s "/pels"), srcExclude := some (s "/ex.txt"), deleteAll := true }).1 = .srcExcludeMode (s "/pels") (s "/ex.txt") := by decide
+example : (runMain envDemo { path := some (s "/pels"), plid := some (s "5000") } wDemo).exit = 1 ∧
+    (runMain envDemo { path := some (s "/pels"), pelID := some (s "0x5EED0000") } wDemo).stdout = s "PEL not found\n" := by decide
+
+-- with real PELs (`wPels`): `--plid 50000001` and `--id 50000002` find the HIDDEN PEL (platform log id 0x50000001, entry id 0x50000002)
+-- although the plain `-l` does not show it
+example : (runMain envDemo { path := some (s "/pels"), plid := some (s "0x50000001"), hex := true } wPels).stdout =
+      linesOut (pelHexDisplay pelDemo) ++ linesOut (pelHexDisplay pelHiddenDemo) ∧
+    (runMain envDemo { path := some (s "/pels"), pelID := some (s "50000002"), hex := true } wPels).stdout = linesOut (pelHexDisplay pelHiddenDemo) ∧
+    (runMain envDemo { path := some (s "/pels"), list := true, hex := true } wPels).stdout = linesOut (pelHexDisplay pelDemo) := by
+  decide +kernel
 
 end Pel.C10
